@@ -5,7 +5,7 @@
 pub mod node;
 
 use self::node::Node;
-use crate::grammar::{Element, NamedSymbol, Primitive};
+use crate::grammar::{Element, Module, NamedSymbol, Primitive};
 use crate::utils::ptr_util::{OwnedPtr, WeakPtr};
 use std::collections::HashMap;
 
@@ -323,6 +323,15 @@ impl Ast {
         // Convert the element into a [Node] and add it to this AST.
         self.elements.push(element.into());
         weak_ptr
+    }
+
+    /// Moves a module into this AST, and returns a [WeakPtr] to it. The module can be retrieved by identifier, unless
+    /// another element is registered under the same identifier: modules can be re-opened by any number of files, and
+    /// they live in their own namespace, so a module never takes the place of a definition (or of a primitive type).
+    pub(crate) fn add_module(&mut self, module: OwnedPtr<Module>) -> WeakPtr<Module> {
+        let scoped_identifier = module.borrow().parser_scoped_identifier();
+        self.lookup_table.entry(scoped_identifier).or_insert(self.elements.len());
+        self.add_element(module)
     }
 
     /// Moves a Slice element into this AST, and returns a [WeakPtr] to it, after adding an entry for the element into
